@@ -77,6 +77,8 @@ def plan(tier, seed):
     sh = [{"kind": "keys", "part": i, "parts": n, "tier": tier, "_name": f"keys-{i}"} for i in range(n)]
     sh.append({"kind": "bics", "tier": tier, "_name": "bics"})
     sh.append({"kind": "unlisted", "tier": tier, "_name": "unlisted"})
+    for i in range(3 if tier == "quick" else 20):
+        sh.append({"kind": "cold", "part": i, "tier": tier, "_prelude": False, "_name": f"cold-{i}"})
     for k in range(CONFIGS[tier]):
         rng = env.rng("C12cfg", k)
         files = synthetic_bank_files(rng)
@@ -297,10 +299,54 @@ def run_unlisted(shard, mon, S):
                 mon.tally("unlisted_ibans")
 
 
+def run_cold(shard, mon, S):
+    """First look-ups of a process, made by eight threads at once, judged by R-LOOKUP."""
+    import sys  # noqa: PLC0415
+    import threading  # noqa: PLC0415
+
+    table = data.countries()
+    idx = lookup.by_key()
+    rng = env.rng("C12", "cold", shard["part"])
+    keys = rng.sample(sorted(idx), 8)
+    outs = {}
+    start = threading.Barrier(len(keys))
+    sys.setswitchinterval(1e-6)
+
+    def body(i):
+        cc, code = keys[i]
+        t = build_iban_around(cc, code, table, random.Random(i))
+        start.wait()
+        o1 = observe(S.BIC.candidates_from_bank_code, cc, code)
+        o2 = observe(S.BIC.from_bank_code, cc, code)
+        o3 = observe(lambda: S.IBAN(t).bank) if t else None
+        outs[i] = (o1, o2, o3)
+
+    ts = [threading.Thread(target=body, args=(i,), daemon=True) for i in range(len(keys))]
+    for t in ts:
+        t.start()
+    for t in ts:
+        t.join(300)
+    for i, (o1, o2, o3) in outs.items():
+        cc, code = keys[i]
+        want = lookup.candidates(idx[(cc, code)])
+        mon.ev()
+        mon.distinct(("cold", shard["part"], cc, code))
+        w = {"country": cc, "bank_code": code, "threads": len(keys), "first_calls_of_process": True}
+        if not o1.ok or sorted(str(x) for x in o1.value) != sorted(want):
+            mon.viol("cold_start_threads:candidates_not_registry_bics", w, want, o1.brief())
+        if want and (not o2.ok or not lookup.selection_ok(str(o2.value), want)):
+            mon.viol("cold_start_threads:from_bank_code_wrong", w, want, o2.brief())
+        if o3 is not None and (not o3.ok or o3.value != idx[(cc, code)][0]):
+            mon.viol("cold_start_threads:iban_bank_wrong", w, idx[(cc, code)][0], o3.brief())
+    if len(outs) != len(keys):
+        mon.inconclusive.append("cold-start threads did not finish")
+    mon.tally("cold_thread_starts")
+
+
 def run_shard(shard, out_base):
     mon = Mon("C12")
     S = judge.lib()
-    {"keys": run_keys, "bics": run_bics, "unlisted": run_unlisted}[shard["kind"]](shard, mon, S)
+    {"keys": run_keys, "bics": run_bics, "unlisted": run_unlisted, "cold": run_cold}[shard["kind"]](shard, mon, S)
     if shard.get("config") is not None:
         mon.tally(f"config_shards")
     return mon.result(out_base)
